@@ -113,17 +113,18 @@ theorem readAll_enterRead (x : Xof X) (reads : List Nat) :
   | nil => rfl
   | cons n r => simp only [readAll, read_enterRead x n]
 
-/-- **Main theorem (C06).**  For every declared length and key accepted by NewXOF, every message in any Write
-    chunking, and every sequence of Read sizes: the concatenated Read outputs are the prefix of the BLAKE2X
-    output (`blake2xSpec`: root hash H0 with the xof length in its parameter block, node i = BLAKE2 with node
-    offset i and digest length min(Size, bytes left) over H0) of length min(Σ sizes, declared length), and a
-    Read reports EOF exactly when the declared length is exhausted. -/
-theorem read_history (W : XLaws X) (hsz : X.size ≤ X.A.bs) (size : Nat) (key : Bytes) (x0 : Xof X)
-    (h : newXOF X size key = .ok x0) (chunks : List Bytes) (reads : List Nat) :
-    ((readAll (absorb x0 chunks) reads).2.map (·.1)).flatten =
-      (blake2xSpec X x0.length key chunks.flatten).take reads.sum := by
+/-- a Read on an XOF in read mode reports EOF exactly when nothing remains (from `read_future`) -/
+theorem eof_iff (W : XLaws X) (len : Nat) (h0 : Bytes) (x : Xof X) (n : Nat) (hw : WF len h0 x) :
+    (x.read n).2.2 = true ↔ x.remaining = 0 := (read_future W len h0 x n hw).2.2.2
+
+/-- the state at the first Read of a freshly created (or Reset) XOF that has absorbed `chunks`: it is a
+    well-formed read-mode state whose root is the BLAKE2X root hash and whose future is the whole BLAKE2X output -/
+theorem fresh_wf (W : XLaws X) (hsz : X.size ≤ X.A.bs) (size : Nat) (key : Bytes) (x0 : Xof X)
+    (h : newXOF X size key = .ok x0) (chunks : List Bytes) :
+    WF x0.length (rootHash X x0.length key chunks.flatten) (absorb x0 chunks).enterRead ∧
+    future x0.length (rootHash X x0.length key chunks.flatten) (absorb x0 chunks).enterRead =
+      blake2xSpec X x0.length key chunks.flatten := by
   obtain ⟨hroot, hblk⟩ := root_eq_spec W hsz size key x0 h chunks
-  -- facts about the fresh state
   have hx0 : x0.readMode = false ∧ x0.offset = 0 ∧ x0.nodeOffset = 0 ∧ x0.remaining = outLen X x0.length ∧
       x0.cfg = ⟨X.size, 0⟩ ∧ x0.block.length = X.size := by
     unfold newXOF at h
@@ -135,31 +136,50 @@ theorem read_history (W : XLaws X) (hsz : X.size ≤ X.A.bs) (size : Nat) (key :
         subst h
         simp [Xof.reset, outLen, zeros_length]
   obtain ⟨m1, m2, m3, m4, m5, m6⟩ := hx0
-  rw [readAll_enterRead]
-  let x := (absorb x0 chunks).enterRead
-  have hx : x = { absorb x0 chunks with root := X.A.out (absorb x0 chunks).d.finalize, readMode := true } := by
-    show (absorb x0 chunks).enterRead = _
+  have hx : (absorb x0 chunks).enterRead =
+      { absorb x0 chunks with root := X.A.out (absorb x0 chunks).d.finalize, readMode := true } := by
     unfold Xof.enterRead
     rw [if_neg (by show ¬ x0.readMode = true; simp [m1])]
-  have hw : WF x0.length (rootHash X x0.length key chunks.flatten) x := by
-    rw [hx]
-    refine ⟨rfl, hroot, rfl, m6, by show x0.offset < X.size; rw [m2]; exact W.size_pos, hblk, ?_⟩
+  rw [hx]
+  constructor
+  · refine ⟨rfl, hroot, rfl, m6, by show x0.offset < X.size; rw [m2]; exact W.size_pos, hblk, ?_⟩
     intro _
     show x0.cfg.dlen = X.size
     rw [m5]
-  obtain ⟨r1, _, _⟩ := readAll_future W _ _ reads x hw
-  rw [r1]
-  have hfut : future x0.length (rootHash X x0.length key chunks.flatten) x =
-      nodesFrom X x0.length (rootHash X x0.length key chunks.flatten) 0 (outLen X x0.length) := by
-    rw [hx]
-    unfold future bufPart
+  · unfold future bufPart
     simp only []
     rw [if_neg (by show ¬ x0.offset > 0; omega)]
     simp only [List.nil_append, List.length_nil, Nat.sub_zero]
     show nodesFrom X x0.length _ x0.nodeOffset x0.remaining = _
     rw [m3, m4]
-  rw [hfut]
-  rfl
+    rfl
+
+/-- **Main theorem (C06).**  For every declared length and key accepted by NewXOF, every message in any Write
+    chunking, and every sequence of Read sizes: the concatenated Read outputs are the prefix of the BLAKE2X
+    output (`blake2xSpec`: root hash H0 with the xof length in its parameter block, node i = BLAKE2 with node
+    offset i and digest length min(Size, bytes left) over H0) of length min(Σ sizes, declared length). -/
+theorem read_history (W : XLaws X) (hsz : X.size ≤ X.A.bs) (size : Nat) (key : Bytes) (x0 : Xof X)
+    (h : newXOF X size key = .ok x0) (chunks : List Bytes) (reads : List Nat) :
+    ((readAll (absorb x0 chunks) reads).2.map (·.1)).flatten =
+      (blake2xSpec X x0.length key chunks.flatten).take reads.sum := by
+  obtain ⟨hw, hfut⟩ := fresh_wf W hsz size key x0 h chunks
+  rw [readAll_enterRead]
+  obtain ⟨r1, _, _⟩ := readAll_future W _ _ reads _ hw
+  rw [r1, hfut]
+
+/-- **EOF exactly at the declared length**: after any Reads `pre`, the next Read reports io.EOF if and only if
+    the Reads so far have asked for at least the declared length (2^32·Size when unknown) -/
+theorem eof_history (W : XLaws X) (hsz : X.size ≤ X.A.bs) (size : Nat) (key : Bytes) (x0 : Xof X)
+    (h : newXOF X size key = .ok x0) (chunks : List Bytes) (pre : List Nat) (n : Nat) :
+    ((readAll (absorb x0 chunks).enterRead pre).1.read n).2.2 = true ↔ outLen X x0.length ≤ pre.sum := by
+  obtain ⟨hw, hfut⟩ := fresh_wf W hsz size key x0 h chunks
+  obtain ⟨_, r2, r3⟩ := readAll_future W _ _ pre _ hw
+  rw [eof_iff W _ _ _ n r2]
+  have hl := future_length W _ _ _ r2
+  rw [r3, hfut, List.length_drop] at hl
+  unfold blake2xSpec at hl
+  rw [nodesFrom_length W] at hl
+  omega
 
 /-- exactly the declared length (2^32·Size for OutputLengthUnknown) is produced before EOF -/
 theorem total_len (W : XLaws X) (hsz : X.size ≤ X.A.bs) (size : Nat) (key : Bytes) (x0 : Xof X)
@@ -216,10 +236,6 @@ theorem blake2xs_read_history (size : Nat) (key : Bytes) (x0 : Xof XS) (h : newX
     ((readAll (absorb x0 chunks) reads).2.map (·.1)).flatten =
       (blake2xSpec XS x0.length key chunks.flatten).take reads.sum :=
   read_history XS_laws (by decide) size key x0 h chunks reads
-
-/-- a Read on an XOF in read mode reports EOF exactly when nothing remains (from `read_future`) -/
-theorem eof_iff (W : XLaws X) (len : Nat) (h0 : Bytes) (x : Xof X) (n : Nat) (hw : WF len h0 x) :
-    (x.read n).2.2 = true ↔ x.remaining = 0 := (read_future W len h0 x n hw).2.2.2
 
 /-- Write after the first Read panics -/
 theorem write_after_read_panics (W : XLaws X) (len : Nat) (h0 : Bytes) (x : Xof X) (n : Nat) (p : Bytes)
@@ -288,7 +304,19 @@ theorem newXOF_ok_iff (size : Nat) (key : Bytes) :
     · simp [h1, h2]
     · simp [h1, h2]; omega
 
-/-! non-vacuity -/
+/-! non-vacuity: NewXOF accepts these, so `read_history` / `eof_history` / `total_len` apply to them -/
+example : ∃ x0, newXOF XB 100 [1, 2, 3] = .ok x0 ∧
+    ((readAll (absorb x0 [[7], [8, 9]]) [0, 3, 64, 40]).2.map (·.1)).flatten.length = 100 := by
+  obtain ⟨x0, h⟩ := (newXOF_ok_iff (X := XB) 100 [1, 2, 3]).mpr (by decide)
+  refine ⟨x0, h, ?_⟩
+  rw [total_len XB_laws (by decide) 100 [1, 2, 3] x0 h]
+  have : x0.length = 100 := by
+    unfold newXOF at h
+    rw [if_neg (by decide), if_neg (by decide)] at h
+    injection h with h
+    rw [← h]; rfl
+  rw [this]; decide
+
 example : ∃ x, newXOF XB 100 [1, 2, 3] = .ok x := (newXOF_ok_iff 100 [1, 2, 3]).mpr (by decide)
 example : ∃ x, newXOF XS 0 [] = .ok x := (newXOF_ok_iff 0 []).mpr (by decide)
 
